@@ -588,13 +588,15 @@ impl Recorder {
         for word in ["help", "ami", "atm", "smile"] {
             // (flip 0 / 1: the English text is learned, then ANSI on / English off; flip 2: English off from the start - the last
             //  candidate of an emoji-name word is then an emoji - then ANSI on)
-            for (flip, restart) in [(0usize, false), (1, false), (2, false), (0, true), (1, true), (2, true)] {
+            //  flip 3: nothing is taken away - the user's auto-correct file gets an entry with an EMPTY replacement for the word
+            //  (an empty first candidate appears: every index behind it moves by one)
+            for (flip, restart) in [(0usize, false), (1, false), (2, false), (3, false), (0, true), (1, true), (2, true), (3, true)] {
                 n += 1;
                 if n % shards.max(1) != shard % shards.max(1) {
                     continue;
                 }
                 let base = Cfg { layout: "phonetic".into(), psug: true, english: flip != 2, ansi: false, smart: false, db: true, ..Default::default() };
-                let after = if flip != 1 { Cfg { ansi: true, ..base.clone() } } else { Cfg { english: false, ..base.clone() } };
+                let after = if flip == 3 { base.clone() } else if flip != 1 { Cfg { ansi: true, ..base.clone() } } else { Cfg { english: false, ..base.clone() } };
                 clean_home(&self.home);
                 let mut ctx = match Ctx::new(&base, &self.home) { Ok(c) => c, Err(_) => continue };
                 self.emit(json!({"ev": "new", "cfg": cfg_json(&base)}));
@@ -605,6 +607,13 @@ impl Recorder {
                 let steps: Vec<(bool, &str, usize)> = vec![(false, word, 0), (false, word, 1), (true, word, 1), (false, sfx.as_str(), 2), (false, word, 2)];
                 'steps: for (switch, text, how) in steps {
                     if switch {
+                        if flip == 3 {
+                            let acp = self.home.join("openbangla-keyboard/autocorrect.json");
+                            std::fs::write(&acp, format!("{{\"{}\":\"\"}}", word)).unwrap();
+                            if let Ok(f) = std::fs::OpenOptions::new().write(true).open(&acp) {
+                                let _ = f.set_modified(std::time::UNIX_EPOCH + std::time::Duration::from_secs(1_700_000_500));
+                            }
+                        }
                         if restart {
                             drop(ctx);
                             ctx = match Ctx::new(&after, &self.home) { Ok(c) => c, Err(_) => break 'steps };
